@@ -34,7 +34,7 @@ Separate Extraction
   OutPath.ll_path OutPath.is_pn_module
   DeltaExpr.parse_expression DeltaExpr.parse_expression_res DeltaExpr.fold_negative_literals DeltaExpr.admissible RefParser.parse_expr
   Loc.combined_with Loc.comparison_key Loc.key_leb Loc.key_eqb
-  LintWalk.lint_module LintWalk.lint_positions LintWalk.occs_decl
+  LintWalk.lint_module LintWalk.lint_positions LintWalk.occs_decl LintWalk.range_test
   Escape.rebuild_const_string Escape.rebuild_import Escape.rebuild_string
   MemLower.ref_instrs MemLower.ref_instrs_pinned MemLower.elaborate MemLower.lower_ref MemLower.lower_ref_pinned MemLower.gep_offset MemLower.gen MemLower.erase
   Autoderef.pred_table Autoderef.pred_table_private Autoderef.analyze_deref Autoderef.autoderef Autoderef.pointer_depth Autoderef.is_slice_pointer Autoderef.type_of_reference Autoderef.argument_coercion
